@@ -250,7 +250,8 @@ class MpmathShadowC:
 
 
 def build_exponent_mpf(arg):
-    tn, E = arg
+    tn, E = arg[:2]
+    ctxprec = arg[2] if len(arg) > 2 else None  # None: a context of p + 10 bits; a number: a context of that many bits (float64 only)
     t = getattr(numpy, tn)
     import functional_algorithms.utils as U
 
@@ -262,9 +263,9 @@ def build_exponent_mpf(arg):
     F = z3.BitVec("F", sb - 1)
     x = z3.fpBVToFP(z3.Concat(sgn, z3.BitVecVal(E, eb), F), z3.FPSort(eb, sb))
     out = []
-    base = "C13/utils.float2mpf/%s/E=%d" % (tn, E)
+    base = "C13/utils.float2mpf/%s/E=%d" % (tn, E) + ("/ctxprec=%d" % ctxprec if ctxprec else "")
     try:
-        paths = explore(lambda e: f(FakeMpCtx(sb + 10), SymFP(x, t)), int_width=W)
+        paths = explore(lambda e: f(FakeMpCtx(ctxprec or sb + 10), SymFP(x, t)), int_width=W)
     except Exception:
         return [dict(id=base + "/engine", error=traceback.format_exc()[-800:])]
     bias = (1 << (eb - 1)) - 1
@@ -319,6 +320,11 @@ def part_c(rep, tier, only=None):
             args.append((t.__name__, E))
     if only:
         args = [a for a in args if only in "C13/utils.float2mpf/%s/E=%d/" % a]
+    # the value must not depend on the working precision of the context handed in: float64 under a 5-bit context, on every
+    # 16th exponent field and the extremes (float16 / float32 go through mpmath's conversion of a NumPy scalar, which rounds
+    # to the context precision - the ldexp contract above holds for them only in contexts of at least p bits)
+    if not only or "ctxprec" in only:
+        args += [("float64", E, 5) for E in sorted(set(range(0, 2047, 16)) | {1, 2046, 1022, 1023, 1024, 1075})]
     ctx = mp.get_context("fork")
     with ctx.Pool(core.NPROC) as pool:
         for lst in pool.imap_unordered(build_exponent_mpf, args, chunksize=8):
